@@ -57,7 +57,8 @@ AXES = {
     "set_style_val": VALS,
     "lang": ["en-US"] + VALS[1:7],
     # "2x": two languages, the first of which also has two positioned captions of its own (layouts no other language uses)
-    "nlangs": [1, 2, 3, "2x"],
+    # "2e" / "e2": two languages, the second / first of which has no caption at all
+    "nlangs": [1, 2, 3, "2x", "2e", "e2"],
     "lang_layout": LAYOUTS,
     "other_lang_layout": LAYOUTS[:4],
     "cap_layout": LAYOUTS,
@@ -102,7 +103,7 @@ def build(cfg):
 
     caps = {}
     own = cfg["nlangs"] == "2x"
-    langs = [cfg["lang"]] + ["fr-FR", "de-DE"][: (2 if own else cfg["nlangs"]) - 1]
+    langs = [cfg["lang"]] + ["fr-FR", "de-DE"][: (2 if own or cfg["nlangs"] in ("2e", "e2") else cfg["nlangs"]) - 1]
     for li, lang in enumerate(langs):
         cl = CaptionList(layout_info=mk_layout(cfg["lang_layout"]) if li == 0 else mk_layout(cfg["other_lang_layout"]))
         # caption 1: text, optionally with a styled span
@@ -141,6 +142,11 @@ def build(cfg):
         t3 = (1000000 - z, 2000000 - z) if cfg["concurrent"] == "aba" else (5000000, 6000000)
         cl.append(Caption(t3[0], t3[1], [CaptionNode.create_text("third")], layout_info=mk_layout(LAYOUTS[3]) if own and not li else None))
         caps[lang] = cl
+    if cfg["nlangs"] in ("2e", "e2"):
+        caps["fr-FR"] = CaptionList()
+        if cfg["nlangs"] == "e2":
+            langs = ["fr-FR", cfg["lang"]]
+            caps = {l: caps[l] for l in langs}
     cs = CaptionSet(caps)
     styles = {}
     if cfg["set_style_id"]:
@@ -241,6 +247,13 @@ def in_domain(cfg):
     return True
 
 
+def expected_p_counts(cfg, wname, langs):
+    nps = [{2} if (wname != "DFXPWriter" and cfg["concurrent"] is True) else {3} for _ in langs]
+    if cfg["nlangs"] in ("2e", "e2"):
+        nps = [{0} if l == "fr-FR" else n for l, n in zip(langs, nps)]
+    return nps
+
+
 def evaluate_raw(cfg, wname, opt):
     from pycaption.exceptions import RelativizationError
 
@@ -270,10 +283,7 @@ def evaluate_raw(cfg, wname, opt):
         exp_langs = [langs[-1]]
     else:
         exp_langs = langs
-    merging = wname != "DFXPWriter"
-    nps = [{3, 2} if (merging and cfg["concurrent"] is True) else {3} for _ in exp_langs]
-    if merging and cfg["concurrent"] is True:
-        nps = [{2} for _ in exp_langs]
+    nps = expected_p_counts(cfg, wname, exp_langs)
     out = check_doc(doc, exp_langs, nps, None)
     return [(f"C07/{wname}/{kind}/{minimal_class(cfg)}", dict(det, cfg={k: cfg[k] for k in cfg if cfg[k] != AXES[k][0]})) for kind, det in out], "ok" if not out else "bad"
 
@@ -407,9 +417,7 @@ def run_shard(d):
                     doc = writer.write(cs)
                 except Exception:  # noqa
                     continue
-                nps = [{3} for _ in langs]
-                if w != "DFXPWriter" and cfg["concurrent"] is True:
-                    nps = [{2} for _ in langs]
+                nps = expected_p_counts(cfg, w, langs)
                 res = check_doc(doc, langs, nps, None)
                 prev = minimal_class(order[step - 1]) if step else "-"
                 acc.case(("reuse", w, step, cfg), True, (w, "ok" if not res else "bad"), {"writer_object_reused": w, "step": step, "set": minimal_class(cfg), "previous_set": prev})
@@ -482,9 +490,7 @@ def replay(case):
                 doc = writer.write(cs)
             except Exception:  # noqa
                 continue
-            nps = [{3} for _ in langs]
-            if w != "DFXPWriter" and cfg["concurrent"] is True:
-                nps = [{2} for _ in langs]
+            nps = expected_p_counts(cfg, w, langs)
             if step == len(order) - 1:
                 prev = (minimal_class(order[step - 1]) if len(order) == 2 else "longer-history") if step else "-"
                 out = [{"sig": f"C07/{w}/{kind}/writer-object-reused/after:{prev}", "detail": det} for kind, det in check_doc(doc, langs, nps, None)]
